@@ -234,8 +234,17 @@ type replayOutcome struct {
 	msg    string
 }
 
+// replayOne replays a single file in its own process, optionally with a shorter per-case time limit.
+func replayOne(bin, work, path, limit string) (map[string]*replayOutcome, string, error) {
+	return replayManyEnv(bin, work, []string{path}, false, limit)
+}
+
 // replayMany runs saved cases in one fresh process.
 func replayMany(bin, work string, paths []string, withSelfCheck bool) (map[string]*replayOutcome, string, error) {
+	return replayManyEnv(bin, work, paths, withSelfCheck, "")
+}
+
+func replayManyEnv(bin, work string, paths []string, withSelfCheck bool, limit string) (map[string]*replayOutcome, string, error) {
 	runre := "^TestReplay$"
 	if withSelfCheck {
 		runre = "^(TestModelSelfCheck|TestReplay)$"
@@ -244,6 +253,9 @@ func replayMany(bin, work string, paths []string, withSelfCheck bool) (map[strin
 	cmd.Dir = work
 	rl := filepath.Join(work, fmt.Sprintf("race-replay-%d", time.Now().UnixNano()))
 	cmd.Env = append(os.Environ(), "VERIF_REPLAY="+strings.Join(paths, string(os.PathListSeparator)), "GORACE=halt_on_error=0 log_path="+rl, "VERIF_RACE_LOG="+rl)
+	if limit != "" {
+		cmd.Env = append(cmd.Env, "VERIF_REPLAY_TIMEOUT="+limit)
+	}
 	var buf bytes.Buffer
 	cmd.Stdout, cmd.Stderr = &buf, &buf
 	err := cmd.Run()
@@ -486,23 +498,46 @@ func run(id string, cfg config, tier string, seed int64, work string, replayPath
 	}
 	allHashes = nil
 
-	// confirm each violation in a fresh process (up to 3 tries; a failure that never reproduces is
-	// inconclusive, not a verdict)
+	// Confirm violations in fresh processes (one process per replay file, in parallel, up to three
+	// tries each; a failure that never reproduces is inconclusive, not a verdict). When many shards
+	// report, only the three smallest replay files are confirmed and reported: they almost always
+	// share one root cause, and a hang confirmation costs its full time limit.
 	if len(replayFiles) > 0 {
-		sort.Strings(replayFiles)
-		confirmed := map[string]string{}
-		for try := 0; try < 3 && len(confirmed) < len(replayFiles); try++ {
-			rr, _, _ := replayMany(bin, work, replayFiles, false)
-			for _, p := range replayFiles {
-				if o := rr[p]; o != nil && o.status == "FAIL" {
-					confirmed[p] = o.msg
-				}
+		sort.Slice(replayFiles, func(i, j int) bool {
+			fi, _ := os.Stat(replayFiles[i])
+			fj, _ := os.Stat(replayFiles[j])
+			if fi != nil && fj != nil && fi.Size() != fj.Size() {
+				return fi.Size() < fj.Size()
 			}
+			return replayFiles[i] < replayFiles[j]
+		})
+		if len(replayFiles) > 3 {
+			fmt.Printf("%d shards reported a violation; confirming the 3 smallest replay files\n", len(replayFiles))
+			replayFiles = replayFiles[:3]
 		}
-		for _, p := range replayFiles {
-			if msg, ok := confirmed[p]; ok {
+		confirmed := make([]string, len(replayFiles))
+		var cwg sync.WaitGroup
+		for i, p := range replayFiles {
+			cwg.Add(1)
+			go func(i int, p string) {
+				defer cwg.Done()
+				limit := ""
+				if hangFiles[filepath.Base(p)] {
+					limit = "60s"
+				}
+				for try := 0; try < 3 && confirmed[i] == ""; try++ {
+					rr, _, _ := replayOne(bin, work, p, limit)
+					if o := rr[p]; o != nil && o.status == "FAIL" {
+						confirmed[i] = o.msg
+					}
+				}
+			}(i, p)
+		}
+		cwg.Wait()
+		for i, p := range replayFiles {
+			if confirmed[i] != "" {
 				violations++
-				violationLines = append(violationLines, "violation: "+oneLine(msg), fmt.Sprintf("VIOLATION property=%s replay=%s", id, p))
+				violationLines = append(violationLines, "violation: "+oneLine(confirmed[i]), fmt.Sprintf("VIOLATION property=%s replay=%s", id, p))
 			} else {
 				inconclusive = fmt.Sprintf("a shard reported a violation that does not reproduce from its replay file %s", p)
 			}
